@@ -577,7 +577,10 @@ class _Run(object):
                 live.wait_for(peer_known, 2.0)      # the reset has reached the server's socket (stimulus only, no verdict)
         finally:
             GONE_GO[tok].set()
-        EVENTS[tok].wait(HANG)
+        if not EVENTS[tok].wait(5.0):
+            # the request was decoded completely; normal latency from here to the method body is far below a millisecond.
+            # (reported at once instead of waiting HANG seconds in every such case; evaluate() would say the same)
+            self.viol("call-not-run:peer-gone", "%s never ran (no snapshot for token %d within 5 s after the request had been decoded)" % (what, tok))
         self.pool_quiet(self.nopen())
         return tok
 
